@@ -175,7 +175,28 @@ def run_stream(pid, cfg, seed, n, tier, workdir, replay=None):
     except subprocess.TimeoutExpired:
         return dict(error="harness timed out", report=None, diffs=[], lines=0)
     if r.returncode != 0 or not os.path.exists(os.path.join(workdir, "oracle.json")):
-        return dict(error="harness failed: " + r.stdout[-2000:], report=None, diffs=[], lines=0)
+        crash = None
+        m = re.search(r"^(panic: .*|fatal error: .*|SIGSEGV.*|unexpected signal.*)$", r.stdout, re.M)
+        if m and not replay:
+            # the process died inside the real code: run it again flushing every line, so
+            # that the ops up to the crash are the replay
+            try:
+                run(cmd, env=dict(env, VH_FLUSH="1"), timeout=cfg.get("harness_timeout", 3000))
+                ops = open(os.path.join(workdir, "ops.txt")).read().split("\n")
+                if ops and ops[-1] == "":
+                    ops.pop()
+                rp = cfg.get("reset_prefixes")
+                start = len(ops) - 1
+                if rp:
+                    while start > 0 and not any(ops[start].startswith(p) for p in rp):
+                        start -= 1
+                else:
+                    start = max(0, len(ops) - 5)
+                stack = [l for l in r.stdout.splitlines() if "/repo/" in l or "storrent" in l][:6]
+                crash = dict(msg=m.group(1)[:300], ops=ops[start:], stack=stack)
+            except Exception:
+                crash = dict(msg=m.group(1)[:300], ops=[], stack=[])
+        return dict(error="harness failed: " + r.stdout[-2000:], report=None, diffs=[], lines=0, crash=crash)
     report = json.load(open(os.path.join(workdir, "oracle.json")))
     diffs, lines = [], 0
     if cfg.get("exe"):
@@ -351,6 +372,16 @@ def main():
     for s, res, wd in runs:
         if res["error"]:
             broken.append(f"correspondence run (seed {s}) failed: {trunc(res['error'], 600)}")
+            if res.get("crash"):
+                cr = res["crash"]
+                kind = "crash:process:" + re.sub(r"[^A-Za-z0-9_.:-]+", "-", cr["msg"])[:80]
+                hit = next((k for k in kf if fnmatch.fnmatchcase(kind, k[0])), None)
+                if hit:
+                    known_hits.setdefault(hit[0], (hit[1], dict(kind=kind)))
+                else:
+                    violations.append((kind, "the process running the real code died: " + cr["msg"] + " | " + " | ".join(cr["stack"]) +
+                                       " | replay = the ops of the last case up to the crash (the fatal op is the next one the generator issues for this seed)",
+                                       cr["ops"], s))
             continue
         rep = res["report"]
         evaluations += rep.get("evaluations", 0)
